@@ -198,13 +198,29 @@ def check(ctx):
         lc = r.load_call
         args = [a for a in lc.args if not (isinstance(a, ast.Name) and a.id == "self")]
         ok = len(args) == 1 and isinstance(args[0], ast.Call) and call_name(args[0]) == "locals" and not args[0].args
+        snap = None
+        if not ok and len(args) == 1 and isinstance(args[0], ast.Name):
+            # a snapshot `v = locals()` taken in the constructor itself (bound once) and handed on
+            defs_ = [n for n in walk_no_nested(r.init) if isinstance(n, ast.Assign) and len(n.targets) == 1 and isinstance(n.targets[0], ast.Name)
+                     and n.targets[0].id == args[0].id]
+            if len(defs_) == 1 and isinstance(defs_[0].value, ast.Call) and call_name(defs_[0].value) == "locals" and not defs_[0].value.args \
+                    and defs_[0] in r.init.body:
+                ok, snap = True, defs_[0]
         ctx.decide(ok, "R-FLOW/locals", ci.qual, ci.where(lc), "_load receives locals()",
                    f"_load receives `{ast.unparse(args[0]) if args else None}` instead of locals(): declaration order / "
                    f"argument values are not what is loaded", key="locals")
         # names bound before the _load call other than parameters
         bound = []
+        limit = (lc.lineno, lc.col_offset)
+        if snap is not None:
+            # what is loaded is what was bound when the snapshot was taken (statements in front of it in the constructor body)
+            before_snap = {id(x) for st_ in r.init.body[:r.init.body.index(snap)] for x in ast.walk(st_)}
         for n in walk_no_nested(r.init):
-            if isinstance(n, ast.Name) and isinstance(n.ctx, ast.Store) and (n.lineno, n.col_offset) < (lc.lineno, lc.col_offset):
+            if snap is not None:
+                if isinstance(n, ast.Name) and isinstance(n.ctx, ast.Store) and id(n) in before_snap:
+                    bound.append(n.id)
+                continue
+            if isinstance(n, ast.Name) and isinstance(n.ctx, ast.Store) and (n.lineno, n.col_offset) < limit:
                 bound.append(n.id)
             if isinstance(n, (ast.Import, ast.ImportFrom)) and n.lineno < lc.lineno:
                 bound += [a.asname or a.name for a in n.names]
